@@ -276,7 +276,8 @@ int * make_systematic_matrix(int k, int m)
   }
 
   // Create all-XOR parity as first row of parity submatrix
-  for (i = 0; i < cols; i++) {
+  // (there is no parity submatrix when m == 0)
+  for (i = 0; m > 0 && i < cols; i++) {
     int row_val = matrix[(cols * cols) + i];
     if (row_val != 1) {
       // Multiply the parity sub-column by the inverse of row_val
